@@ -176,6 +176,35 @@ def run_harness(cases):
     return results
 
 
+DERIVE_GEN = os.path.join(ROOT, "derive_gen")
+
+
+def run_derive(seed, n):
+    """C20: generate `n` families of type definitions, compile them against /repo's derive macro
+    and run them. Returns (cases, rust outcomes, error). A family list that does not compile is an
+    outcome of its own (deriving on a supported shape must compile)."""
+    gen = os.path.join(DERIVE_GEN, "src", "generated.rs")
+    rc, out = sh([HARNESS_BIN, "gen-derive", str(seed), str(n), gen])
+    if rc != 0:
+        return [], [], "generator failed: " + out.decode(errors="replace")[-400:]
+    if not os.path.exists(os.path.join(DERIVE_GEN, "Cargo.lock")):
+        subprocess.run(["cp", "/repo/Cargo.lock", os.path.join(DERIVE_GEN, "Cargo.lock")])
+    p = subprocess.run(["cargo", "build", "--offline", "--quiet"], cwd=DERIVE_GEN, stdout=subprocess.PIPE,
+                       stderr=subprocess.STDOUT, env=ENV)
+    if p.returncode != 0:
+        msg = p.stdout.decode(errors="replace")
+        errs = [l for l in msg.split("\n") if l.startswith("error")]
+        return [], [], "the generated type definitions do not compile: " + " | ".join(errs[:3])[:600]
+    p = subprocess.run([os.path.join(DERIVE_GEN, "target", "debug", "derive_gen")], stdout=subprocess.PIPE,
+                       stderr=subprocess.DEVNULL, env=ENV)
+    lines = p.stdout.decode(errors="replace").split("\n")
+    if lines and lines[-1] == "":
+        lines.pop()
+    if p.returncode != 0 or len(lines) % 2 != 0:
+        return lines[0::2], (lines[1::2] + ["abort"])[: len(lines[0::2])], None
+    return lines[0::2], lines[1::2], None
+
+
 def run_driver(cases):
     inp = ("\n".join(cases) + "\n").encode()
     p = subprocess.run([DRIVER], input=inp, stdout=subprocess.PIPE, stderr=subprocess.PIPE)
@@ -398,16 +427,28 @@ def main():
         if args.replay:
             rp = json.load(open(args.replay))
             streams = [{"name": "replay", "cases": rp.get("cases", [])}]
+            if any(c.startswith(("derive ", "gen-derive ")) for c in rp.get("cases", [])):
+                # the type families are regenerated (same seed) and recompiled against /repo
+                seed = rp.get("seed", seed)
+                streams = [s for s in cfg["streams"] if s["name"] == "derive"]
         for st in streams:
             name = st["name"]
+            rust = None
             if "cases" in st:
                 cases = st["cases"]
+            elif name == "derive":
+                cases, rust, err = run_derive(seed, st[tier])
+                if err:
+                    violations.append({"stream": name, "kind": "oracle", "detail": err, "case": f"gen-derive {seed} {st[tier]}",
+                                       "rust": "build-failed", "model": ""})
+                    continue
             else:
                 n = st[tier]
                 cases = corpus_cases(name) + gen_cases(name, seed, n)
             if not cases:
                 continue
-            rust = run_harness(cases)
+            if rust is None:
+                rust = run_harness(cases)
             model = run_driver(cases)
             nd = 0
             for c, r, m in zip(cases, rust, model):
@@ -496,6 +537,12 @@ def main():
                 v["kind"] = "oracle"
                 v["detail"] = ("the 10-byte header is not C3 01 + the CRC-64-AVRO fingerprint of the schema's "
                                "canonical form | " + v["detail"])
+        elif v["case"].startswith("derive "):
+            # C20 on the implementation's own outcome for this family of types
+            bad = [t for t in rt if t in ("NONDET", "json-REJECTED", "json-err", "schema-err", "err", "rt-NE", "rt-err")]
+            if bad:
+                v["kind"] = "oracle"
+                v["detail"] = ("derived schema / round trip of the generated types: " + " ".join(sorted(set(bad))) + " | " + v["detail"])
         elif v["case"].startswith("reuse "):
             # C14: after every call, successful or not, every pooled buffer is empty
             for i, t in enumerate(rt):
